@@ -34,6 +34,8 @@ def cfg_fn(rng):
     cfg.extra = ("iou",) if rng.random() < 0.6 else ()
     # the feature stored under another key (renamed as an importer does)
     cfg.rename = (("iou", "overlap"),) if cfg.extra and rng.random() < 0.25 else ()
+    if rng.random() < 0.1:
+        cfg.p_root = 1.0  # detections only: every link is made during the session
     return cfg
 
 
